@@ -4,7 +4,16 @@ Oracle: serialize() then every reader (Slice.load_hashmap, HashMap.parse, HashMa
 store_dict -> load_dict / preload_dict) returns exactly the pairs; result keys ascending; result independent of insertion
 order (same cell hash); empty map => serialize() is None and load_dict => None. Keys >= 2^n or < 0 => set/serialize raises,
 never a map in which another key appears.
-Not asserted: the particular cell layout (C10); exception types.
+Histories / uses of the result (all plain data of the case or fixed per case):
+ * readers without a value deserializer (values handed out as slices): the caller prints / logs / formats the result (dict, single
+   values; describe()/look()) BEFORE reading it - every value slice still has exactly the stored bits and references; a from_cell map
+   that was printed serialises to a cell holding the pairs; printing the map object / its values / the cell changes nothing.
+ * the same map object serialised again after set / with_*_values / an in-place change of a value object.
+ * maps of maps (sub-check maps-of-maps-and-in-place-changes): the value writer serialises another HashMap, the value reader parses
+   one (callbacks that re-enter the library during the outer walk); one value object under several keys; value objects changed in
+   place (inner.set / del, Address.set_anycast) between serialisations of the same outer object; a fresh outer object agrees.
+ * mirrored halves whose values are == yet written differently (Address with / without anycast).
+Not asserted: the particular cell layout (C10); exception types; what repr()/str() print.
 """
 from hypothesis import strategies as st
 from harness.core import Sub, Fail, call, exc_sig, describe, look
@@ -12,7 +21,10 @@ from harness.core import Sub, Fail, call, exc_sig, describe, look
 RULE = ('case = key width n, list of (key, value) in insertion order, key form (int / bytes / bit string / Address for n=267 / '
         'hashed string for n=256), value kind (uint32 / coins / cell-in-ref). exhaustive sub-check: all key subsets for n <= 3 '
         '(thorough: n = 4, 65 535 maps). non-trivial = >= 2 keys sharing a non-empty prefix, or a single-entry map, or an '
-        'invalid-key case; distinct = distinct case')
+        'invalid-key case; distinct = distinct case. every map case also reads the values as slices (no value deserializer) after the '
+        'result was printed (repr/str/format of the dict and of single values), re-serialises a printed from_cell map and a printed '
+        'map object. maps-of-maps: outer width, inner width, 1-4 inner maps (or addresses) shared among <= 8 outer keys, 0-4 in-place '
+        'changes of the value objects between serialisations; value callbacks call HashMap.serialize / load_dict themselves')
 ASSUMPTIONS = ['python dict as the model of a finite map']
 
 
@@ -408,6 +420,107 @@ def strat_mirror(tier):
                                   'pfx': st.integers(0, 2 ** 30)})
 
 
+def check_nested(case):
+    """a map whose values are maps (value writer = store_dict(inner.serialize()), value reader = load_dict(...): the callbacks call
+    the library again, while the outer walk is under way), or addresses; several keys may hold the SAME value object. History: between
+    two serialisations of the same outer object the value objects are changed in place (inner.set / del, Address.set_anycast)."""
+    from pytoniq_core.boc.hashmap.hashmap import HashMap
+    from pytoniq_core.boc.builder import Builder
+    from pytoniq_core.boc.address import Address
+    n, n2, vk = case['n'], case['n2'], case['vk']
+    u32 = lambda s: s.load_uint(32)
+    if vk == 'map':
+        objs = []
+        for prs in case['inner']:
+            h = HashMap(n2).with_uint_values(32)
+            for k, v in prs:
+                h.set(k % (1 << n2), v)
+            objs.append(h)
+        outer = HashMap(n, value_serializer=lambda src, dest: dest.store_dict(src.serialize()))
+        des = lambda s: s.load_dict(n2, value_deserializer=u32) or {}
+        snap = lambda o: dict(sorted(o.map.items()))
+    else:
+        objs = [Address((i % 3 - 1, bytes([i + 1]) * 32)) for i in range(len(case['inner']))]
+        outer = HashMap(n).with_address_values()
+
+        def des(s):
+            a = s.load_address()
+            return (a.wc, a.hash_part.hex(), None if a.anycast is None else (a.anycast.depth, a.anycast.rewrite_pfx))
+        anyc = {}
+        snap = lambda o: (o.wc, o.hash_part.hex(), anyc.get(id(o)))      # objs are alive for the whole case
+    held = {}
+    for k, i in case['outer']:
+        outer.set(k % (1 << n), objs[i % len(objs)])
+        held[k % (1 << n)] = objs[i % len(objs)]
+    steps = [None] + list(case['ops'])
+    for t, op in enumerate(steps):
+        if op is not None:
+            i, k, v = op
+            o = objs[i % len(objs)]
+            if vk == 'map':
+                k %= (1 << n2)
+                if v % 4 == 0 and k in o.map:
+                    del o.map[k]
+                elif v % 4 == 1 and o.map:
+                    del o.map[sorted(o.map)[k % len(o.map)]]
+                else:
+                    o.set(k, v)
+            else:
+                depth = 1 + k % 30
+                anyc[id(o)] = (depth, v % (1 << depth))
+                o.set_anycast(*anyc[id(o)])
+        exp = {k: snap(o) for k, o in sorted(held.items())}
+        ok, cell = call(outer.serialize)
+        if not ok or cell is None:
+            return Fail(f'serialize-raises/values-{vk}/{type(cell).__name__}', f'{exc_sig(cell) if not ok else ""}: {cell!r} n={n} n2={n2} step {t}')
+        readers = {
+            'load_hashmap': lambda: cell.begin_parse().load_hashmap(n, value_deserializer=des),
+            'load_dict': lambda: Builder().store_dict(cell).end_cell().begin_parse().load_dict(n, value_deserializer=des),
+            'from_cell': lambda: {k: des(v) for k, v in HashMap.from_cell(cell, n).map.items()},
+        }
+        for name, rd in readers.items():
+            ok, got = call(rd)
+            if not ok:
+                return Fail(f'reader-raises/{name}/values-{vk}', f'{exc_sig(got)}: {got!r} n={n} n2={n2}')
+            if got != exp or list(got) != list(exp) or any(isinstance(g, dict) and list(g) != sorted(g) for g in got.values()):
+                bad = [k for k in exp if got.get(k) != exp[k]][:2]
+                sig = 'roundtrip-pairs-differ' if t == 0 else 'stale-or-wrong-after-update/value-changed-in-place'
+                return Fail(f'{sig}/values-{vk}', f'{name}: n={n} n2={n2} after {t} in-place change(s): keys {bad}: got {[got.get(k) for k in bad]}, '
+                            f'the map holds {[exp[k] for k in bad]}'[:600])
+        # a fresh outer object over the same value objects writes the same cell
+        fresh = HashMap(n, value_serializer=outer.value_serializer, map_=dict(outer.map))
+        ok, c2 = call(fresh.serialize)
+        if not ok or c2 is None or c2.hash != cell.hash:
+            return Fail(f'same-map-two-objects-two-cells/values-{vk}', f'n={n} n2={n2} after {t} in-place change(s)')
+    return None
+
+
+@st.composite
+def st_nested(draw):
+    n = draw(st.one_of(st.sampled_from([1, 2, 3, 8, 16, 64, 256]), st.integers(1, 500)))
+    n2 = draw(st.one_of(st.sampled_from([1, 2, 8, 32, 256]), st.integers(1, 400)))
+    ninner = draw(st.integers(1, 4))
+    base = draw(st.integers(0, (1 << n) - 1))
+    okey = st.one_of(st.integers(0, (1 << n) - 1), st.integers(0, 7).map(lambda lo: (base & ~7 | lo) % (1 << n)),
+                     st.sampled_from([0, (1 << n) - 1, 1 << (n - 1)]))
+    ikey = st.one_of(st.integers(0, (1 << n2) - 1), st.integers(0, 7))
+    return {'n': n, 'n2': n2, 'vk': draw(st.sampled_from(['map', 'map', 'addr'])),
+            'outer': draw(st.lists(st.tuples(okey, st.integers(0, 3)).map(list), min_size=1, max_size=8)),
+            'inner': [draw(st.lists(st.tuples(ikey, st.integers(0, 2 ** 32 - 1)).map(list), min_size=0, max_size=6)) for _ in range(ninner)],
+            'ops': draw(st.lists(st.tuples(st.integers(0, 3), ikey, st.integers(0, 2 ** 32 - 1)).map(list), min_size=0, max_size=4))}
+
+
+def classify_nested(case):
+    yield 'values=' + case['vk']
+    yield 'in-place-changes=%d' % len(case['ops'])
+    if any(not p for p in case['inner']) and case['vk'] == 'map':
+        yield 'an-empty-inner-map'
+    idx = [i % len(case['inner']) for _, i in case['outer']]
+    if len(set(idx)) < len({k % (1 << case['n']) for k, _ in case['outer']}):
+        yield 'one-object-under-several-keys'
+
+
+
 def check_invalid(case):
     """keys that do not fit the width must be rejected, never aliased"""
     from pytoniq_core.boc.hashmap.hashmap import HashMap
@@ -551,5 +664,9 @@ SUBCHECKS = [
     Sub('mirrored-halves-with-equal-values', check_mirror, strategy=strat_mirror, n=(400, 10000), shards=(4, 16),
         classify=lambda c: ['n=%d' % c['n']], nontrivial=lambda c: True,
         note='both halves of the root fork hold the same sub-keys; values are the same account with / without anycast (== ignores anycast)'),
+    Sub('maps-of-maps-and-in-place-changes', check_nested, strategy=lambda tier: st_nested(), classify=classify_nested, nontrivial=lambda c: True,
+        n=(160, 10000), shards=(8, 16),
+        note='value writer / reader callbacks that serialise / parse another map; one value object under several keys; value objects changed '
+             'in place (inner.set / del, Address.set_anycast) between serialisations of the same outer object'),
     Sub('invalid-keys', check_invalid, strategy=lambda tier: st_invalid(), classify=classify, nontrivial=nt, n=(1500, 20000), shards=(8, 16)),
 ]
